@@ -119,7 +119,7 @@ def run_instances(prop, mod_name, instances, ctx, level="model_checking", assump
                 cmd0 = None; batch = []
                 for c in cases:
                     cmd0, cj = inst.native(c); batch.append(cj)
-                nat = replay.run(cmd0, {"batch": batch})
+                nat = replay.run(cmd0, {"batch": batch}, profile=getattr(inst, "native_profile", "dev"))
                 nres = nat.get("results", [])
                 for c, f, n in zip(cases, futs, nres + [None] * (len(cases) - len(nres))):
                     try:
